@@ -162,6 +162,81 @@ def gen(w, rng, tier):
                 if da and db:
                     la, a, lb, b = "domain", da, "domain", db
             add(f"d{op}:{la}:{lb}", f"d{op} {l} {r} {o} {i} {a} {j} {b}")
+    if w.be == "dec":
+        # stress inside the domain: for every derived operator the unit pairs with the most extreme
+        # scale product / ratio, operand amounts with all 18 fractional digits in use (what any
+        # non-terminating division leaves behind) at every decade the domain admits
+        for (op, l, r, o) in w.derived():
+            tl, tr = w.by_name[l], w.by_name[r]
+            sc = []
+            for i in range(tl["n"]):
+                for j in range(tr["n"]):
+                    sl, sr = tl["units"][i]["scale_val"], tr["units"][j]["scale_val"]
+                    v = sl * sr if op == "mul" else sl / sr
+                    if ok_mag(v, False):
+                        sc.append((v, i, j))
+            sc.sort()
+            picks = sc[:2] + sc[-3:] if len(sc) > 5 else list(sc)
+            # a re-association of the operator body creates intermediates that are products / quotients of
+            # two of (dividend amount, divisor amount, scale factor): also take the unit pairs for which such
+            # an intermediate can get largest or smallest while every stated magnitude stays inside the domain
+            if len(sc) > 5:
+                sml, smr = float(smin(tl)), float(smin(tr))
+
+                def bounds(t, k, sm):
+                    su = float(t["units"][k]["scale_val"])
+                    return max(1e-15, 1e-15 * float(max(u["scale_val"] for u in t["units"])) / su), min(1e17, 1e17 * sm / su)
+                scored = []
+                for (v, i, j) in sc:
+                    (alo, ahi), (blo, bhi) = bounds(tl, i, sml), bounds(tr, j, smr)
+                    f = float(v)
+                    scored.append(((ahi * f, bhi * f, f / blo, alo * f, blo * f, f / bhi), i, j, v))
+                for k in range(6):
+                    best = sorted(scored, key=lambda x, k=k: x[0][k])
+                    for x in (best[-1], best[-2], best[0]):
+                        if (x[3], x[1], x[2]) not in picks:
+                            picks.append((x[3], x[1], x[2]))
+            for (_, i, j) in picks:
+                def dense(k):
+                    """an amount of decade k with all 18 fractional digits in use: coefficient of 19 + k digits"""
+                    nd = 19 + k
+                    if nd < 1:
+                        return None
+                    c = rng.below(9 * 10 ** (nd - 1)) + 10 ** (nd - 1)
+                    if c % 10 == 0:
+                        c += 1 + rng.below(9)
+                    return enc_dec(c, 18)
+
+                def cand(ka, kb, dense_b):
+                    ea = dense(ka)
+                    if dense_b:
+                        eb = dense(kb)
+                    else:
+                        eb = enc_frac(w.be, Fraction(rng.below(9) + 1) * Fraction(10) ** kb)
+                    if ea is None or eb is None:
+                        return None
+                    line = f"d{op} {l} {r} {o} {i} {ea} {j} {eb}"
+                    return line if in_domain(w, line) else None
+                ks = list(range(-14, 18))
+                # the four corners of the admissible (decade of a, decade of b) region, then random interior points
+                orders = [sorted(((ka, kb) for ka in ks for kb in ks), key=lambda p, sa=sa, sb=sb: (sa * p[0], sb * p[1]))
+                          for sa in (-1, 1) for sb in (-1, 1)]
+                orders += [sorted(((ka, kb) for ka in ks for kb in ks), key=lambda p, sa=sa, sb=sb: (sb * p[1], sa * p[0]))
+                           for sa in (-1, 1) for sb in (-1, 1)]
+                for od in (orders if tier != "quick" else orders[:4]):
+                    for (ka, kb) in od:
+                        line = cand(ka, kb, rng.chance(1, 2))
+                        if line:
+                            ops.append((f"d{op}:stress-corner:dom-in", line))
+                            break
+                found = 0
+                for _ in range(40 if tier == "quick" else 200):
+                    line = cand(rng.below(30) - 12, rng.below(30) - 12, rng.chance(1, 2))
+                    if line:
+                        ops.append((f"d{op}:stress:dom-in", line))
+                        found += 1
+                        if found >= (2 if tier == "quick" else 12):
+                            break
     types = [x for x in RATE_TYPES if x in w.by_name]
     for tq in types:
         for pq in types:
